@@ -114,35 +114,36 @@ def floors(tier):
     classes = {
         # (the restart-dependent floors are low on purpose: on a loaded machine a worker needs longer to die, so fewer
         #  restarts fit into the same wall-clock budget)
-        "real:restarted": 12 * (1 if tier == "quick" else 3),
-        "real:restart-refused:no-search-time": 20,
-        "real:restart-refused:time-exhausted": 10,
-        "real:ok-after-restart": 6,
-        "real:all-started-workers-crashed": 20,
+        "real:restarted": 8 if tier == "quick" else 36,
+        "real:restart-refused:no-search-time": 8 if tier == "quick" else 20,
+        "real:restart-refused:time-exhausted": 6 if tier == "quick" else 10,
+        "real:ok-after-restart": 4 if tier == "quick" else 6,
+        "real:all-started-workers-crashed": 12 if tier == "quick" else 20,
         "real:restart-in-late-phase": 2,
-        "scripted:enumerated-len<=4": 595,
-        "scripted:all-dying-repeat-forever": 340,
+        "scripted:enumerated-len<=4": 211 if tier == "quick" else 595,
+        "scripted:all-dying-repeat-forever": 84 if tier == "quick" else 340,
         "scripted:sampled-longer": 40 * k,
-        "scripted:restart-rule": 1200,
+        "scripted:restart-rule": 400 if tier == "quick" else 1200,
         "scripted:ok-delivered": 150,
         "scripted:nonok-nothing-delivered": 300,
         "scripted:restarts=4": 20,
-        "scripted:hang": 4,
+        "scripted:hang": 2,
     }
+    q = tier == "quick"
     for p in PHASES:
-        classes[f"real:phase={p}"] = 9
+        classes[f"real:phase={p}"] = 3 if q else 9
     for n in NS:
-        classes[f"real:n={n}"] = 27
+        classes[f"real:n={n}"] = 9 if q else 27
     for b in BUDGETS:
-        classes[f"real:budget={b}"] = 27
-    for p in PHASES:
-        for n in NS:
-            for b in BUDGETS:
-                classes[f"real:{p}:n{n}:{b}"] = 1
+        classes[f"real:budget={b}"] = 9 if q else 27
+    for c in real_directed_cases(q):
+        classes[f"real:{c['phase']}:n{c['n']}:{c['budget_kind']}"] = 1
     for t in TIMES:
         classes[f"scripted:T={t}"] = 30
     for s in ALL_STEPS:
         classes[f"scripted:step-reached={s}"] = 2 if s in HANGS else 5
+    if tier == "quick":
+        return {"evals": 1500, "distinct": 600, "classes": classes}
     return {"evals": 3000 + 1500 * (k - 1), "distinct": 1100 + 500 * (k - 1), "classes": classes}
 
 
@@ -156,11 +157,14 @@ def _real_cost(case):
     return 8 + (10 if n == 99 and p >= 4 else (5 if n == 2 and p >= 4 else 0))
 
 
-def real_directed_cases():
+def real_directed_cases(quick=False):
     cases = []
+    kinds = list(BUDGETS)
     for b in BUDGETS:
-        for p in PHASES:
-            for n in NS:
+        for pi, p in enumerate(PHASES):
+            for ni, n in enumerate(NS):
+                if quick and kinds[(pi + ni) % len(kinds)] != b:
+                    continue  # quick tier: a Latin square - every (phase, n), every (phase, budget kind) and every (n, budget kind) once
                 budget = dict(BUDGETS[b])
                 if b == "time+iter" and n != 99:
                     budget["maximum_search_time"] = 45  # the late phases must be reachable with time to spare on a loaded machine
@@ -212,11 +216,15 @@ def enumerated_sequences(maxlen):
     return out
 
 
-def scripted_directed_cases():
+def scripted_directed_cases(quick=False):
     cases = []
-    for s in enumerated_sequences(4):  # 595
+    seqs = enumerated_sequences(4)  # 595
+    if quick:
+        # quick tier: all sequences of length <= 3 (147) and every 7th of length 4 (64); the thorough tier runs all 595
+        seqs = [q for q in seqs if len(q) <= 3] + [q for q in seqs if len(q) == 4][::7]
+    for s in seqs:
         cases.append({"script": s, "then": "send-ok", "T": 5, "delay": 0.3, "tag": "enum4"})
-    for k in range(1, 5):  # 340
+    for k in range(1, 4 if quick else 5):  # 340 (quick tier: lengths <= 3 = 84; each of these runs until its search time is used up)
         for s in itertools.product(DYING, repeat=k):
             cases.append({"script": list(s), "then": "repeat", "T": 3, "delay": 0.3, "tag": "repeat"})
     for t in (-1, 0, 1, 2, 3):  # 5 x 35
@@ -271,8 +279,8 @@ def plan(tier, seed):
     specs = []
     nsd = 4
     for i in range(nsd):
-        specs.append({"name": "scripted-directed", "part": i, "of": nsd})
-    real = real_directed_cases()
+        specs.append({"name": "scripted-directed", "part": i, "of": nsd, "quick": quick})
+    real = real_directed_cases(quick)
     for i, chunk in enumerate(_balance(real, 12)):
         specs.append({"name": "real-directed", "part": i, "cases": chunk})
     if quick:
@@ -908,7 +916,7 @@ def run_chunk(spec, ctx):
         for i, case in enumerate(spec["cases"]):
             run_real_case(ctx, case, proj, i, seeded_break=brk)
     elif name == "scripted-directed":
-        cases = scripted_directed_cases()
+        cases = scripted_directed_cases(quick=spec.get("quick", False))
         cases = cases[spec["part"]::spec["of"]]
         if "limit" in spec:
             cases = cases[: spec["limit"]]
